@@ -323,8 +323,8 @@ Definition sim_apply (p : params) (ty : stype) (ts : list Qc) (rs : list (V3 Qc)
 
 (** ** The complete [apply], with the two random streams given as recorded arrays.
 
-    [W] = first  [rng.randn(*readings.shape)]  (integrated into the bias),
-    [N] = second [rng.randn(*readings.shape)]  (additive white noise).
+    [W] = first  [rng.randn( *readings.shape)]  (integrated into the bias),
+    [N] = second [rng.randn( *readings.shape)]  (additive white noise).
     [dt ** 0.5] needs a square root: [qsqrt] returns the exact rational root, or [None] when
     there is none (then [sim_full] is undefined: the model covers exactly the time stamps on
     which the implementation's arithmetic is exact). *)
@@ -469,3 +469,149 @@ Definition key (t : target) : nat :=
   match t with TBias a => a | TSm o i => 3 + 3 * o + i end.
 Definition valid_target (t : target) : Prop :=
   match t with TBias a => a < 3 | TSm o i => o < 3 /\ i < 3 end%nat.
+
+(** [(A diag(d)^2 A^T)[r][r']] for a 0/1 matrix [A] given by its unit entries, [cols = length d]:
+    the continuous-time covariance rate the filter builds from (G, q) and (J, v). *)
+Definition ind (b : bool) : Qc := if b then 1 else 0.
+Definition gram (A : list (nat * nat)) (d : list Qc) (r r' : nat) : Qc :=
+  fold_right Qcplus 0
+    (map (fun c => ind (has_entry r c A) * sq (nth c d 0) * ind (has_entry r' c A))
+         (seq 0 (List.length d))).
+Definition GqG (m : emodel) : nat -> nat -> Qc := gram (G m) (q m).
+Definition JvJ (m : emodel) : nat -> nat -> Qc := gram (J m) (v m).
+
+(** matrix-vector product of a dense matrix (list of rows) *)
+Definition mat_vec (A : list (list Qc)) (x : list Qc) : list Qc := map (fun row => dot row x) A.
+Definition v3_list (u : V3 Qc) : list Qc := [c0 u; c1 u; c2 u].
+
+(** zero outside the enabled entries *)
+Definition bias_supported (bias_sd b : V3 Qc) : Prop :=
+  forall a, (a < 3)%nat -> Qcpos (get3 a bias_sd) = false -> get3 a b = 0.
+Definition sm_supported (sm_sd E : M3) : Prop :=
+  forall o i, (o < 3)%nat -> (i < 3)%nat -> Qcpos (get33 o i sm_sd) = false -> get33 o i E = 0.
+
+(** sign / non-vanishing conditions on triads and matrices *)
+Definition nonneg3 (u : V3 Qc) : Prop := forall a, (a < 3)%nat -> 0 <= get3 a u.
+Definition nonneg33 (M : M3) : Prop := forall o i, (o < 3)%nat -> (i < 3)%nat -> 0 <= get33 o i M.
+Definition nonzero3 (u : V3 Qc) : Prop := forall a, (a < 3)%nat -> get3 a u <> 0.
+Definition nonzero33 (M : M3) : Prop := forall o i, (o < 3)%nat -> (i < 3)%nat -> get33 o i M <> 0.
+
+(** run a sequence of updates *)
+Fixpoint updates (m : emodel) (xs : list (list Qc)) (st : est) : option est :=
+  match xs with
+  | [] => Some st
+  | x :: xs' => match update m x st with Some st' => updates m xs' st' | None => None end
+  end.
+Definition vsum (n : nat) (xs : list (list Qc)) : list Qc := fold_left vadd xs (repeat 0 n).
+
+(* ------------------------------------------------------------------ *)
+(** * Case evaluation vocabulary (used by the generated files of tools/props/C14.py only)
+
+    Inputs are integers over a fixed power-of-two denominator; the implementation's canonical
+    answers are compared inside Coq and only the indices of mismatching cases are printed. *)
+
+Definition dy (den : positive) (k : Z) : Qc := Q2Qc (k # den).
+Definition dy3 (den : positive) (a b c : Z) : V3 Qc := mk3 (dy den a) (dy den b) (dy den c).
+Definition dy33 (den : positive) (a b c d e f g h i : Z) : M3 :=
+  mk3 (dy3 den a b c) (dy3 den d e f) (dy3 den g h i).
+
+Definition Qc_eqb (x y : Qc) : bool := if Qc_eq_dec x y then true else false.
+Fixpoint list_eqb {A} (eqb : A -> A -> bool) (l1 l2 : list A) : bool :=
+  match l1, l2 with
+  | [], [] => true
+  | a :: r1, b :: r2 => eqb a b && list_eqb eqb r1 r2
+  | _, _ => false
+  end.
+Definition pair_eqb (a b : nat * nat) : bool := Nat.eqb (fst a) (fst b) && Nat.eqb (snd a) (snd b).
+Definition triple_eqb (a b : nat * nat * nat) : bool := pair_eqb (fst a) (fst b) && Nat.eqb (snd a) (snd b).
+Definition V3_eqb (a b : V3 Qc) : bool := Qc_eqb (c0 a) (c0 b) && Qc_eqb (c1 a) (c1 b) && Qc_eqb (c2 a) (c2 b).
+Definition M3_eqb (a b : M3) : bool := V3_eqb (c0 a) (c0 b) && V3_eqb (c1 a) (c1 b) && V3_eqb (c2 a) (c2 b).
+Definition opt_eqb {A} (eqb : A -> A -> bool) (a b : option A) : bool :=
+  match a, b with Some x, Some y => eqb x y | None, None => true | _, _ => false end.
+
+Definition emodel_eqb (a b : emodel) : bool :=
+  list_eqb String.eqb (states a) (states b) && Nat.eqb (n_states a) (n_states b)
+  && Nat.eqb (n_noises a) (n_noises b) && Nat.eqb (n_output_noises a) (n_output_noises b)
+  && list_eqb Qc_eqb (P a) (P b) && list_eqb Qc_eqb (q a) (q b) && list_eqb Qc_eqb (v a) (v b)
+  && list_eqb pair_eqb (G a) (G b) && list_eqb pair_eqb (H a) (H b) && list_eqb pair_eqb (J a) (J b)
+  && list_eqb triple_eqb (scale_misal_data a) (scale_misal_data b).
+
+(** |a - b| <= tol, componentwise *)
+Definition Qc_close (tol a b : Qc) : bool :=
+  match Qccompare (a - b) tol, Qccompare (b - a) tol with
+  | Gt, _ | _, Gt => false
+  | _, _ => true
+  end.
+Definition V3_close (tol : Qc) (a b : V3 Qc) : bool :=
+  Qc_close tol (c0 a) (c0 b) && Qc_close tol (c1 a) (c1 b) && Qc_close tol (c2 a) (c2 b).
+
+(** the estimate state machine driven by a list of operations; every operation's observable
+    result is compared with the implementation's.  [OUpdate x None] = the call raised. *)
+Inductive op :=
+| OReset
+| OUpdate (x : list Qc) (raised : bool)
+| OGet (expected : list Qc)
+| OState (T : M3) (b : V3 Qc)                         (* self.transform, self.bias *)
+| OCorrect (dt : Qc) (incs : V3 Qc) (tol : Qc) (expected : option (V3 Qc))
+| OOutput (readings : V3 Qc) (expected : list (list Qc)).
+
+Fixpoint run_ops (m : emodel) (ops : list op) (st : est) : bool :=
+  match ops with
+  | [] => true
+  | o :: rest =>
+      match o with
+      | OReset => run_ops m rest reset
+      | OUpdate x raised =>
+          match update m x st with
+          | Some st' => negb raised && run_ops m rest st'
+          | None => raised && run_ops m rest st
+          end
+      | OGet e => opt_eqb (list_eqb Qc_eqb) (get_estimates m st) (Some e) && run_ops m rest st
+      | OState T b => M3_eqb (e_T st) T && V3_eqb (e_b st) b && run_ops m rest st
+      | OCorrect dt incs tol e =>
+          match correct_increments st dt incs, e with
+          | Some a, Some b => V3_close tol a b
+          | None, None => true
+          | _, _ => false
+          end && run_ops m rest st
+      | OOutput r e => list_eqb (list_eqb Qc_eqb) (output_matrix m r) e && run_ops m rest st
+      end
+  end.
+
+(** one constructor case: arguments, the implementation's model (None = ValueError), operations *)
+Record bcase := mk_bcase {
+  bc_bias : V3 Qc; bc_noise : V3 Qc; bc_walk : V3 Qc; bc_sm : M3;
+  bc_expected : option emodel; bc_ops : list op }.
+Definition run_bcase (c : bcase) : bool :=
+  match build (bc_bias c) (bc_noise c) (bc_walk c) (bc_sm c), bc_expected c with
+  | Some m, Some e => emodel_eqb m e && run_ops m (bc_ops c) reset
+  | None, None => true
+  | _, _ => false
+  end.
+
+(** one simulator case *)
+Record scase := mk_scase {
+  sc_p : params; sc_ty : stype; sc_ts : list Qc; sc_rs : list (V3 Qc);
+  sc_W : list (V3 Qc); sc_N : list (V3 Qc);
+  sc_out : option (list (V3 Qc));              (* apply(...) values; None = raised *)
+  sc_cols : list string;                       (* data_frame.columns *)
+  sc_df : list (list Qc) }.                    (* data_frame.values *)
+Definition run_scase (c : scase) : bool :=
+  opt_eqb (list_eqb V3_eqb) (sim_full (sc_p c) (sc_ty c) (sc_ts c) (sc_rs c) (sc_W c) (sc_N c)) (sc_out c)
+  && match sc_out c with
+     | Some _ => list_eqb String.eqb (columns (sc_p c)) (sc_cols c)
+                 && opt_eqb (list_eqb (list_eqb Qc_eqb)) (sim_df (sc_p c) (sc_ts c) (sc_W c)) (Some (sc_df c))
+     | None => true
+     end.
+
+(** from_EstimationModel case *)
+Record fcase := mk_fcase {
+  fc_bias : V3 Qc; fc_noise : V3 Qc; fc_walk : V3 Qc; fc_sm : M3; fc_zT : M3; fc_zb : V3 Qc;
+  fc_T : M3; fc_b : V3 Qc; fc_n : V3 Qc; fc_w : V3 Qc }.
+Definition run_fcase (c : fcase) : bool :=
+  let p := from_model (fc_bias c) (fc_noise c) (fc_walk c) (fc_sm c) (fc_zT c) (fc_zb c) in
+  M3_eqb (p_T p) (fc_T c) && V3_eqb (p_b p) (fc_b c) && V3_eqb (p_noise p) (fc_n c) && V3_eqb (p_walk p) (fc_w c).
+
+(** indices of the cases on which [f] is false *)
+Definition mismatches {A} (f : A -> bool) (cases : list A) : list nat :=
+  map snd (filter (fun cn => negb (f (fst cn))) (combine cases (seq 0 (List.length cases)))).
